@@ -194,3 +194,45 @@ def run_rules(mod, repo, run, tier):
         print("NOTE property=%s the remaining rules could not be decided on this tree (%s); the violation(s) already established are reported" % (run.prop, str(e)[:200]))
         return run.finish(partial=True)
     return run.finish()
+
+
+class Rejudged:
+    """Proxy around a Run that re-labels the rules of another property's rule function: a clause several properties share is judged by one rule function, and each
+    property reports it under its own rule id (``Rejudged(run, {"C17.1": "C07.14"})``); rules not in the map are judged under a private id and dropped, so only the
+    shared clause counts for the borrowing property."""
+
+    def __init__(self, run, mapping, note=None):
+        object.__setattr__(self, "_run", run)
+        object.__setattr__(self, "_map", dict(mapping))
+        object.__setattr__(self, "_note", note)
+        object.__setattr__(self, "_dropped", set())
+
+    def _id(self, rid):
+        if rid in self._map:
+            return self._map[rid]
+        hidden = "~" + rid
+        self._dropped.add(hidden)
+        return hidden
+
+    def rule(self, rid, desc, floor=1):
+        new = self._id(rid)
+        self._run.rule(new, (desc + (" -- " + self._note if self._note else "")), floor=floor if rid in self._map else 0)
+        return rid
+
+    def judged(self, rid, what, nontrivial=True, ok=True):
+        return self._run.judged(self._id(rid), what, nontrivial=nontrivial, ok=ok)
+
+    def report(self, rule, rel, node, why, qual=None, text=None, facts=None):
+        if rule not in self._map:
+            return None
+        return self._run.report(self._map[rule], rel, node, why, qual=qual, text=text, facts=facts)
+
+    def finish_rejudge(self):
+        for h in self._dropped:
+            self._run.rules.pop(h, None)
+
+    def __getattr__(self, name):
+        return getattr(self._run, name)
+
+    def __setattr__(self, name, value):
+        setattr(self._run, name, value)
